@@ -267,9 +267,12 @@ func (e *cenv) object(obj types.Object) cval {
 		return cval{t: vc.fresh("const", sort), sort: sort, typ: o.Type()}
 	case *types.Var:
 		if isAggregate(o.Type()) {
-			return cval{t: vc.declare(sym("gref!"+o.Pkg().Path()+"."+o.Name()), "Int"), sort: "Int", typ: o.Type(), aggr: true}
+			return cval{t: vc.globalRef(o.Pkg().Path(), o.Name()), sort: "Int", typ: o.Type(), aggr: true}
 		}
 		sort := vc.sortOf(o.Type())
+		if _, ok := vc.DB.ConstGlobals[shortPkg(o.Pkg().Path())+"."+o.Name()]; ok {
+			return cval{t: vc.globalRef(o.Pkg().Path(), "@"+o.Name()), sort: sort, typ: o.Type()}
+		}
 		hv := vc.heapVar("G!"+shortPkg(o.Pkg().Path())+"."+o.Name(), sort)
 		a := &Addr{Kind: "global", Var: hv, Sort: sort, Typ: o.Type()}
 		return e.readAddr(a)
@@ -897,6 +900,17 @@ func (e *cenv) locsOf(m Expr) []loc {
 			var out []loc
 			vc.forEachField(t.typ, func(a *Addr) { out = append(out, loc{Var: a.Var, Kind: "field"}) })
 			return out
+		case "allelems":
+			t := e.eval(x.Args[0])
+			if t.typ == nil {
+				return nil
+			}
+			if isAggregate(t.typ) {
+				var out []loc
+				vc.forEachField(t.typ, func(a *Addr) { out = append(out, loc{Var: a.Var, Kind: "field"}) })
+				return out
+			}
+			return []loc{{Var: vc.elemVar(t.typ), Kind: "global"}}
 		case "lockset":
 			return []loc{{Var: vc.heapVar("$held", "(Array Int Bool)"), Kind: "global"}}
 		}
@@ -962,12 +976,12 @@ func (e *cenv) havocLoc(m Expr, st *State) {
 }
 
 // modVarsOfExpr: heap variables a modifies item may touch (for summaries).
-func (vc *VC) modVarsOfExpr(m Expr, fn *ssa.Function, k *FuncContract) (out []string, ok bool) {
+func (vc *VC) modVarsOfExpr(m Expr, fn *ssa.Function, k *FuncContract, sigs ...*types.Signature) (out []string, ok bool) {
 	env := vc.newEnv(k, vc.entry, vc.entry)
 	errs := []string{}
 	env.errs = &errs
 	saved := vc.ContractErrors
-	names, typs := contractParamList(k, fn)
+	names, typs := contractParamList(k, fn, sigs...)
 	for i, n := range names {
 		cv := cval{t: "0", typ: typs[i], sort: vc.sortOf(typs[i])}
 		if cv.sort != "Int" {
